@@ -688,7 +688,16 @@ def _walk_nodes(n):
             yield from _walk_nodes(c)
 
 
+def r8(F, rep):
+    rep.rule("C12-R8", "the threaded bias loops range over the same biases as the serial one: every call of a bias's update(), "
+                       "get_energy() or communicate_forces() from the module or the proxy sits in a loop over biases_active() "
+                       "(= C01-R3, first clause)")
+    from .rules_c01 import bias_loops
+    bias_loops(F, rep, "C12-R8")
+
+
 def run(F, rep, tier):
+    r8(F, rep)
     r1(F, rep)
     r2(F, rep)
     r3(F, rep)
